@@ -51,6 +51,31 @@ func checkC15(ctx *Ctx, r *Report, tier string) {
 	r.floor("X1", 5)
 	r.floor("X2", 3)
 	r.floor("X3", 6)
+	// X4: a drawing saved over an older, longer file contains only the new drawing: module
+	// functions on the SVG path that open the output themselves create it truncated (the DXF and
+	// 3MF files are created by their libraries)
+	n := 0
+	for _, fn := range ctx.srcFuncs("render") {
+		file := ctx.Fset.Position(fn.Pos()).Filename
+		if !strings.HasSuffix(file, "/svg.go") && !strings.HasSuffix(file, "/dxf.go") && !strings.HasSuffix(file, "/3mf.go") {
+			continue
+		}
+		opens := false
+		allInstrs(fn, func(b *ssa.BasicBlock, ins ssa.Instruction) {
+			if c, ok := ins.(*ssa.Call); ok {
+				if f := c.Call.StaticCallee(); f != nil && (f.String() == "os.Create" || f.String() == "os.OpenFile") {
+					opens = true
+				}
+			}
+		})
+		if !opens {
+			continue
+		}
+		n++
+		ok, detail := createdTruncated(fn)
+		r.check("X4", shortFn(fn)+"|file-created-truncated", fn.Pos(), ok, "the tail of an older, longer file must not survive behind the closing tag: "+detail)
+	}
+	r.floor("X4", 1)
 }
 
 func elemPath(v Val) string {
